@@ -1018,6 +1018,11 @@ class Exec:
         return env
 
     def call_user(self, fi, args, kwargs, fr, node):
+        if getattr(fi, "foreign_decorators", None) and not self.reg.is_spec_module(fi.module.name) \
+                and not fi.module.name.startswith("lemmas."):
+            con0 = self.reg.get(fi.qualname)
+            if con0 is None or not con0.attrs.get("trusted"):
+                raise Unsupported(f"{fi.qualname} is wrapped by decorator(s) {fi.foreign_decorators}: semantics not modelled")
         env = self.bind_args(fi, args, kwargs, fr)
         if self.reg.is_spec_module(fi.module.name):
             return self.spec_call(fi, env, fr)
